@@ -156,7 +156,7 @@ def main(argv):
         while len(terms) > 1:
             i = rng.randrange(len(terms) - 1)
             terms[i:i + 2] = [("nary", "+", "u", (terms[i], terms[i + 1]))]
-        return ("exit", ("op", "==", (), "u", (terms[0], I(total))))
+        return ("return", ("op", "==", (), "u", (terms[0], I(total))))
 
     n_cd = 400 if thorough else 60
     for i in range(n_cd):
